@@ -166,6 +166,13 @@ func (x *Exec) callFn(f *frame, ins ssa.Instruction, fn *ssa.Function, args, bin
 			args = []Value{x.U.Const(t.W, uint64(x.Cfg.SmallTables))}
 		}
 	}
+	if len(x.Cfg.NoResizeCall) > 0 && (name == "(*"+xsyncPath+".Map).resize" || name == "(*"+xsyncPath+".MapOf).resize") {
+		// excluded at the call: the execution never asks for this kind of resize
+		if h, ok := args[2].(*Term); ok && h.IsConst() && x.Cfg.NoResizeCall[int(h.Val)] {
+			x.Assume(g, x.U.False, fmt.Sprintf("this instance excludes executions that request a resize with hint %d (0=grow,1=shrink,2=clear)", h.Val))
+			return nil
+		}
+	}
 	if len(x.Cfg.NoResize) > 0 && (name == xsyncPath+".newMapTable" || name == xsyncPath+".newMapOfTable") {
 		// bound of this instance: executions in which resize actually builds a
 		// new table for an excluded hint are outside it (the cheap early-return
